@@ -65,7 +65,8 @@ IDENT_TRIGS = {
 PLAIN_FILE = "'lv_c05.dat'"
 FILE_LITERALS = {'plain': [PLAIN_FILE], 'newunit-text': ["'lv_newunit=7.dat'", '"lv_NEWUNIT=u"'],
                  'convert-text': ['"lv_convert=\'big_endian\'.dat"', "'lv_CONVERT=\"BIG_ENDIAN\"'"]}
-TAIL_COMMENTS = [' note', " convert='big_endian' was here", ' was newunit=u before', ' __LINE__']
+TAIL_COMMENTS = [[' note', None], [" convert='big_endian' was here", "convert='big_endian'"], [' was newunit=u before', 'newunit=u'],
+                 [' __LINE__', '__LINE__']]
 
 
 # ---------------------------------------------------------------------------------------------
@@ -76,8 +77,7 @@ TAIL_COMMENTS = [' note', " convert='big_endian' was here", ' was newunit=u befo
 def texts(draw, trigs, allow_quote=True):
     """text with (trigs given) or without a trigger; returns [text, trigger or None]"""
     def chunk():
-        n = draw(st.integers(0, 8))
-        s = ''.join(draw(st.sampled_from(SAFE)) for _ in range(n))
+        s = draw(st.text(alphabet=SAFE, max_size=8))
         if allow_quote and draw(st.integers(0, 9)) == 0:
             s += draw(st.sampled_from(["'", '"']))
         return s
@@ -119,7 +119,8 @@ def open_stmt(draw):
     openkw = draw(st.sampled_from(['open', 'OPEN', 'Open', 'open ']))
     tail = draw(st.sampled_from([None, None, None, 'comment', 'stmt']))
     if tail == 'comment':
-        tail = {'kind': 'comment', 'text': draw(st.sampled_from(TAIL_COMMENTS))}
+        text, trig = draw(st.sampled_from(TAIL_COMMENTS))
+        tail = {'kind': 'comment', 'text': text, 'trig': trig}
     elif tail == 'stmt':
         tail = {'kind': 'stmt'}
     prefix = draw(st.integers(0, 7)) == 0
@@ -140,6 +141,10 @@ def cases(draw, big=False):
         lit = {'text': t, 'trig': trig, 'q': draw(st.sampled_from(["'", '"'])),
                'how': draw(st.sampled_from(['print', 'assign', 'concat'])), 'split': None}
         if len(t) >= 2 and draw(st.integers(0, 3)) == 0:
+            # continued literals carry no blanks: loki recovers literal values by a blank-splitting text search in the statement
+            # source (Source.find), which loses continued literals that contain blanks whether or not a trigger is present;
+            # that is not a sanitiser workaround and outside this property
+            lit['text'] = t.replace(' ', '_')
             lit['split'] = draw(st.integers(1, len(t) - 1))
         lits.append(lit)
     comments = []
@@ -255,7 +260,7 @@ def build_source(case):
         if op.get('tail') and op['tail']['kind'] == 'comment':
             ctags.append(('open', None))
         L.append(f'    write({unit_expr(op)}) n + yi0')
-        L.append(f"    close({unit_expr(op)}, status='delete')")
+        L.append(f"    close(unit={unit_expr(op)}, status='delete')")
         L.append('    yi0 = yi0 + 1')
     L += ['  end subroutine kernel', 'end module kmod', '']
     return '\n'.join(L), ctags
@@ -345,11 +350,11 @@ def lits_of(stmt):
 # ---------------------------------------------------------------------------------------------
 
 SIG_OPEN_LITERAL = 'C05:open:newunit-text-in-literal'
-SIG_OPEN_COMMA = 'C05:open:newunit-value-with-comma'
+SIG_OPEN_PAREN = 'C05:open:newunit-value-with-parentheses'
 SIG_OPEN_CONVERT_FIRST = 'C05:open:convert-first'
 SIG_OPEN_TAIL = 'C05:open:rest-of-line-duplicated'
 SIG_OPEN_BOTH = 'C05:open:convert-lost-with-newunit'
-OPEN_SIGS = [SIG_OPEN_LITERAL, SIG_OPEN_COMMA, SIG_OPEN_CONVERT_FIRST, SIG_OPEN_TAIL, SIG_OPEN_BOTH]
+OPEN_SIGS = [SIG_OPEN_LITERAL, SIG_OPEN_PAREN, SIG_OPEN_CONVERT_FIRST, SIG_OPEN_TAIL, SIG_OPEN_BOTH]
 
 
 def _literal_spans(line):
@@ -387,8 +392,8 @@ def open_traits(op):
     if nu and any(a < nu.start() < b for a, b in spans):
         traits.add(SIG_OPEN_LITERAL)
     elif nu and nu.start() < (first.index('!') if '!' in first else len(first)):
-        if ',' in unit_expr(op) and first[m.end():nu.start()].strip():
-            traits.add(SIG_OPEN_COMMA)
+        if '(' in unit_expr(op) and first[m.end():nu.start()].strip():
+            traits.add(SIG_OPEN_PAREN)
     if cv and not first[m.end():cv.start()].strip():
         traits.add(SIG_OPEN_CONVERT_FIRST)
     if (nu or cv) and op.get('tail'):
@@ -413,8 +418,8 @@ def repair(case, ctx):
         ctx.exclude(sig.replace('C05:', 'known:'))
         if sig == SIG_OPEN_LITERAL:
             op['specs'] = [[k, PLAIN_FILE if k == 'file' else v] for k, v in op['specs']]
-        elif sig == SIG_OPEN_COMMA:
-            op['specs'] = [[k, 'us(1)' if k == 'newunit' else v] for k, v in op['specs']]
+        elif sig == SIG_OPEN_PAREN:
+            op['specs'] = [[k, 'u' if k == 'newunit' else v] for k, v in op['specs']]
         elif sig == SIG_OPEN_CONVERT_FIRST:
             op['specs'] = op['specs'][1:] + op['specs'][:1]
             if op['cont'] is not None:
@@ -450,7 +455,15 @@ def lit_position(lit):
 
 
 def cls(trig):
-    return TRIG_CLASS.get(trig) or next((c for c, ts in IDENT_TRIGS.items() if trig in ts), 'no-trigger') if trig else 'no-trigger'
+    """hazard class of a trigger text"""
+    if not trig:
+        return 'no-trigger'
+    if trig in TRIG_CLASS:
+        return TRIG_CLASS[trig]
+    for c, ts in IDENT_TRIGS.items():
+        if trig in ts:
+            return c
+    return 'no-trigger'
 
 
 def neutral_text(case):
@@ -519,18 +532,11 @@ def classes_of(case):
     return classes
 
 
-def nontrivial(case):
-    if case['hazard'] != 'none':
-        return True
-    op = case['open']
-    return bool(op) and 'open:workaround-engaged' in classes_of(case)
-
-
 def check_case(case, ctx, sample_differential=True):
     case = repair(case, ctx)
     src, ctags = build_source(case)
-    hz = f"{case['position']}:{case['hazard']}"
-    ctx.case(case, nontrivial(case), classes_of(case))
+    classes = classes_of(case)
+    ctx.case(case, case['hazard'] != 'none' or 'open:workaround-engaged' in classes, classes)
     if len(ctx.samples) < 3:
         ctx.sample({'source': src})
 
@@ -551,24 +557,25 @@ def check_case(case, ctx, sample_differential=True):
     if sf is None:
         what = f'{exc_bucket(err)}: {err!r}'[:400]
         blamed = False
-        # the sanitiser works line by line: attribute by parsing the text hazards and the OPEN statement alone
-        if case['hazard'] != 'none' and try_parse(build_source(dict(case, open=None, ibm_line=None))[0])[0] is None:
+        # the sanitiser works line by line: attribute by parsing the text items and the OPEN statement on their own
+        t_only = dict(case, open=None, ibm_line=None)
+        if try_parse(build_source(t_only)[0])[0] is None:
             blamed = True
             sigs = hazard_sigs(case)
-            if len(sigs) > 1:       # several hazard items in one case: find the one(s) that break the parse alone
-                alone = []
+            if try_parse(build_source(neutral_text(t_only))[0])[0] is None:
+                ctx.fail('C05:parse-fails:no-trigger', case, what)
+            else:
+                if len(sigs) > 1:   # literals and continued literals in one case: which of them break the parse alone?
+                    def only(s):
+                        return dict(t_only, lits=[l if f'C05:{lit_position(l)}:{cls(l["trig"])}' == s
+                                                  else dict(l, text='zz', trig=None, split=None) for l in case['lits']])
+                    sigs = [s for s in sigs if try_parse(build_source(only(s))[0])[0] is None] or sigs
                 for s in sigs:
-                    only = dict(case, open=None, ibm_line=None,
-                                lits=[l if f'C05:{lit_position(l)}:{cls(l["trig"])}' == s else dict(l, text='zz', trig=None, split=None)
-                                      for l in case['lits']])
-                    if case['position'] != 'literal' or try_parse(build_source(only)[0])[0] is None:
-                        alone.append(s)
-                sigs = alone or sigs
-            for s in sigs:
-                ctx.fail(s, case, 'parse fails: ' + what)
-        if case['open'] and try_parse(build_source(dict(neutral_text(case), ibm_line=None))[0])[0] is None:
+                    ctx.fail(s, case, 'parse fails: ' + what)
+        o_err = try_parse(build_source(dict(case, lits=[], comments=[], idents=[], ibm_line=None))[0])[1] if case['open'] else None
+        if o_err is not None:
             blamed = True
-            ctx.fail(open_sig(case['open'], 'parse-fails'), case, 'parse fails: ' + what)
+            ctx.fail(open_sig(case['open'], 'parse-fails'), case, f'parse fails: {exc_bucket(o_err)}: {o_err!r}'[:400])
         if not blamed:
             ctx.fail('C05:parse-fails:unattributed', case, what)
         return
@@ -582,13 +589,14 @@ def check_case(case, ctx, sample_differential=True):
     # ---- (2) IR content: literal values, comments, variable names ---------------------------------------
     lit_values = [str(l.value) for l in FindLiterals(unique=False).visit(routine.body) if isinstance(l, sym.StringLiteral)]
     for l in case['lits']:
-        if l['how'] == 'assign' and l['text'] not in lit_values:
+        # loki keeps the value in the form it has between single quotes (' doubled); either representation is accepted
+        if l['how'] == 'assign' and l['text'] not in lit_values and l['text'].replace("'", "''") not in lit_values:
             ctx.fail(f'C05:{lit_position(l)}:{cls(l["trig"])}', case,
                      f'literal {l["text"]!r} not found among the StringLiteral values of the IR {lit_values!r}'[:600])
-    ctexts = [c.text for c in FindNodes(ir.Comment).visit(sf.ir)]
-    for blk in FindNodes(ir.CommentBlock).visit(sf.ir):
+    ctexts = [c.text for c in FindNodes(ir.Comment).visit(routine.ir)]
+    for blk in FindNodes(ir.CommentBlock).visit(routine.ir):
         ctexts += [c.text for c in blk.comments]
-    for node in FindNodes((ir.Assignment, ir.GenericStmt, ir.CallStatement, ir.Conditional)).visit(routine.body):
+    for node in FindNodes(ir.Node).visit(routine.body):
         if getattr(node, 'comment', None) is not None:
             ctexts.append(node.comment.text)
     ctexts = [c.strip() for c in ctexts]
@@ -612,8 +620,10 @@ def check_case(case, ctx, sample_differential=True):
     for (kind, idx), text in zip(ctags, o_comments):
         if r_comments.count(text) != o_comments.count(text):
             detail = f'comment {text!r} occurs {o_comments.count(text)}x in the original, {r_comments.count(text)}x regenerated: {r_comments!r}'
-            if kind == 'open':
+            if kind == 'open' and open_traits(case['open']):
                 ctx.fail(open_sig(case['open'], 'line-tail-changed'), case, detail[:600])
+            elif kind == 'open':
+                ctx.fail(f'C05:comment:{cls(case["open"]["tail"].get("trig"))}', case, detail[:600])
             else:
                 ctx.fail(f'C05:comment:{cls(case["comments"][idx]["trig"])}', case, detail[:600])
     for i in case['idents']:
@@ -634,7 +644,11 @@ def check_case(case, ctx, sample_differential=True):
     if not explained and (r_stmts != o_stmts or sorted(r_comments) != sorted(o_comments)):
         diff = next((f'{show(a)} vs {show(b)}' for a, b in zip(o_stmts, r_stmts) if a != b),
                     f'{len(o_stmts)} vs {len(r_stmts)} statements; comments {o_comments!r} vs {r_comments!r}')
-        ctx.fail('C05:regenerated-code-differs', case, diff[:600])
+        # every literal, comment and identifier item was found intact above: what is left is the OPEN line
+        if case['open'] and open_traits(case['open']):
+            ctx.fail(open_sig(case['open'], 'line-changed'), case, diff[:600])
+        else:
+            ctx.fail('C05:regenerated-code-differs', case, diff[:600])
         explained = True
 
     # ---- (4) behaviour, on a deterministic sample of the cases the text oracle accepts -------------------------
